@@ -309,7 +309,8 @@ pub fn run(tier: &Tier) -> i32 {
     let cov = finish_cov(c, cov);
     // vacuity guard: both outcomes must have been seen
     let o = c.outcomes.lock().unwrap();
-    if !(o.contains("JMP") && o.contains("Next")) {
+    // (only a verdict-free run can be vacuous: when the implementation never jumps, the mismatches are the finding)
+    if !(o.contains("JMP") && o.contains("Next")) && rep.unknown_count() == 0 {
         eprintln!("MACHINERY: C06 did not observe both taken and not-taken outcomes: {:?}", *o);
         return 2;
     }
